@@ -4,6 +4,7 @@
  * (RC_WMORE with consumed = 0 until the TLV is complete, like the real primitive decoders).
  *   VF_V=0   T ::= SEQUENCE { a [0] SV OPTIONAL, b CHOICE { [1] SV, [3] SV } OPTIONAL, c [2] SV }      (b untagged: tag2el/bsearch path)
  *   VF_V=1   T ::= SEQUENCE { a [0] SV OPTIONAL, c [2] SV, ..., b CHOICE { [1] SV, [3] SV } OPTIONAL }  (unknown additions are skipped)
+ *   VF_V=2   T ::= SEQUENCE { c [2] SV, a [0] SV OPTIONAL, ..., b CHOICE { [1] SV, [3] SV } OPTIONAL }  (the root ends with an OPTIONAL member)
  */
 #include <vf.h>
 #include <asn_internal.h>
@@ -61,11 +62,16 @@ static void setup(void) {
 	member(&T_elems[1], ATF_POINTER, 1, offsetof(struct T, b), (ber_tlv_tag_t)-1, &svB_td, "b");
 	member(&T_elems[2], ATF_NOFLAGS, 0, offsetof(struct T, c), CTX(2), &svC_td, "c");
 	t2e(&T_tag2el[0], CTX(0), 0); t2e(&T_tag2el[1], CTX(1), 1); t2e(&T_tag2el[2], CTX(2), 2); t2e(&T_tag2el[3], CTX(3), 1);
-#else
+#elif VF_V == 1
 	member(&T_elems[0], ATF_POINTER, 1, offsetof(struct T, a), CTX(0), &svA_td, "a");
 	member(&T_elems[1], ATF_NOFLAGS, 0, offsetof(struct T, c), CTX(2), &svC_td, "c");
 	member(&T_elems[2], ATF_POINTER, 1, offsetof(struct T, b), (ber_tlv_tag_t)-1, &svB_td, "b");
 	t2e(&T_tag2el[0], CTX(0), 0); t2e(&T_tag2el[1], CTX(1), 2); t2e(&T_tag2el[2], CTX(2), 1); t2e(&T_tag2el[3], CTX(3), 2);
+#else   /* VF_V == 2: T ::= SEQUENCE { c [2] SV, a [0] SV OPTIONAL, ..., b CHOICE OPTIONAL }: the root ends with an OPTIONAL member */
+	member(&T_elems[0], ATF_NOFLAGS, 0, offsetof(struct T, c), CTX(2), &svC_td, "c");
+	member(&T_elems[1], ATF_POINTER, 2, offsetof(struct T, a), CTX(0), &svA_td, "a");
+	member(&T_elems[2], ATF_POINTER, 1, offsetof(struct T, b), (ber_tlv_tag_t)-1, &svB_td, "b");
+	t2e(&T_tag2el[0], CTX(0), 1); t2e(&T_tag2el[1], CTX(1), 2); t2e(&T_tag2el[2], CTX(2), 0); t2e(&T_tag2el[3], CTX(3), 2);
 #endif
 	memset(&T_specs, 0, sizeof(T_specs)); T_specs.struct_size = sizeof(struct T); T_specs.ctx_offset = offsetof(struct T, _asn_ctx);
 	T_specs.tag2el = T_tag2el; T_specs.tag2el_count = 4; T_specs.first_extension = VF_V ? 2 : -1;
@@ -89,8 +95,15 @@ static int spec_valid(const uint8_t *p, size_t n, struct expect *e) {
 	if(!IS(0x82)) return 0;
 	e->c = p[i + 2]; i += 3;
 #else
+#if VF_V == 2
+	if(e->has_a) return 0;                    /* variant 2: c comes first, then a */
 	if(!IS(0x82)) return 0;
 	e->c = p[i + 2]; i += 3;
+	if(IS(0x80)) { e->has_a = 1; e->a = p[i + 2]; i += 3; }
+#else
+	if(!IS(0x82)) return 0;
+	e->c = p[i + 2]; i += 3;
+#endif
 	if(IS(0x81) || IS(0x83)) { e->has_b = 1; e->btag = p[i]; e->b = p[i + 2]; i += 3; }
 	if(IS(0x85)) i += 3;                      /* an addition of a later version, unknown here (they follow the known ones) */
 	if(IS(0x86)) i += 3;                      /* another one */
@@ -103,8 +116,8 @@ static int sv_eq(const struct sv *x, const struct sv *y) {
 }
 static int T_eq(const struct T *x, const struct T *y) { return sv_eq(x->a, y->a) && sv_eq(x->b, y->b) && sv_eq(&x->c, &y->c); }
 
-#if VF_V
-/* bound: unknown additions are primitive, so ber_skip_length does not recurse (no octet after the outer tag has bit 6 set) */
+#if VF_V && !defined(VF_GRID)
+/* bound (CBMC only; the native grid includes constructed ones): unknown additions are primitive, so ber_skip_length does not recurse (no octet after the outer tag has bit 6 set) */
 #define VF_PRIM_ONLY(b) do { for(size_t j = 1; j < VF_N; j++) __CPROVER_assume(((b)[j] & 0x20) == 0); } while(0)
 #else
 #define VF_PRIM_ONLY(b) do { } while(0)
